@@ -125,6 +125,9 @@ class Run:
         # frame / memo obligations on the module-level state of the modules that compute this property's answer
         from vf import modstate
         modstate.run(self, self.pid)
+        # language obligations on the compiled patterns the property's functions delegate their decisions to
+        from vf import rxcheck
+        rxcheck.run(self, self.pid)
         cov = self.cov
         cov["explanation"] = explanation
         if checker_cmd:
